@@ -481,6 +481,19 @@ def sc_limit(rng):
     return {'conds': conds}, e, chain, 'limit'
 
 
+def sc_limit_sides(rng):
+    """limits whose value depends on the SIDE from which an inner sum approaches 0: two terms of opposite sign and
+    different decay rates (1/x - 1/x^2, 1/x^2 - 1/x, 1/x - exp(-x), ...) under a function that is one-sided at 0
+    (atan(1/.), exp(-1/.), 1/.)"""
+    fast, slow = rng.choice([('1/x^2', '1/x'), ('1/x^3', '1/x'), ('exp(-x)', '1/x'), ('1/x^3', '1/x^2'), ('exp(-x)', '1/x^2'), ('exp(-2*x)', 'exp(-x)')])
+    a, b = rng.choice([(slow, fast), (fast, slow)])
+    inner = '%s - %s' % (a, b)
+    outer = rng.choice(['atan(1/(%s))', 'exp(-1/(%s))', 'atan(-1/(%s))', 'exp(1/(%s)) / (1 + exp(1/(%s)))', 'atan(2/(%s))'])
+    e = 'LIM {x->oo}. ' + (outer % ((inner,) * outer.count('%s')))
+    chain = [{'name': rng.choice(['FullSimplify', 'FullSimplify', 'ReduceLimit'])}]
+    return {'conds': []}, e, chain, 'limit-sides'
+
+
 def sc_series(rng):
     r = rng.random()
     if r < 0.45:
@@ -613,7 +626,7 @@ def sc_misc(rng):
     return {'conds': list(conds)}, e, [{'name': n} for n in names], 'misc'
 
 
-SCENARIOS = [sc_misc, sc_linearity, sc_fullsimplify, sc_even_root, sc_identity_eval, sc_substitution, sc_substitution_targeted, sc_subst_inverse, sc_parts,
+SCENARIOS = [sc_misc, sc_linearity, sc_fullsimplify, sc_even_root, sc_limit_sides, sc_identity_eval, sc_substitution, sc_substitution_targeted, sc_subst_inverse, sc_parts,
              sc_parts_indef, sc_split, sc_expand, sc_elim_inf, sc_indefinite, sc_equation, sc_algebra, sc_power, sc_identity, sc_limit,
              sc_series, sc_deriv, sc_eq_rules, sc_defs, sc_lemma, sc_substitution, sc_substitution_targeted, sc_algebra, sc_equation]
 
